@@ -20,7 +20,7 @@ RULE = (
     "columns, spelling variant: alias / no alias / subquery source / qualified names / lower-case keywords, optional enclosing "
     "BEGIN..ROLLBACK). Non-trivial = the model says at least one row is inserted, updated or deleted; distinct = distinct cases."
 )
-REQUIRED = ["after_failed_merge", "cmp_committed", "cmp_target", "cmp_counts", "cmp_source_unchanged", "cmp_helper_invisible", "merges_with_effect", "merges_without_effect",
+REQUIRED = ["after_failed_merge", "cmp_committed", "cmp_target_only_columns", "cmp_target", "cmp_counts", "cmp_source_unchanged", "cmp_helper_invisible", "merges_with_effect", "merges_without_effect",
             "cmp_rollback"]
 ASSUMPTIONS = [
     "only deterministic merges are generated (no target row joins more than one source row)",
@@ -59,8 +59,29 @@ INSERTS = [["cols", ["K", "V", "W"], [["s", "K"], ["s", "V"], ["s", "W"]]],
 VARIANTS = ["alias", "noalias", "subquery", "qualified", "lower", "alias_as", "other_schema", "other_schema_noalias"]
 
 
+TARGET_ONLY = [
+    # (name, statement over PATHS(ID, PATH, SEEN) = [(1,'a',0),(2,'b',5)], expected rows, expected status)
+    ("set-unqualified-target-column-in-expression",
+     "MERGE INTO PATHS t USING (SELECT 1 AS ID, 'z' AS NEWPATH UNION ALL SELECT 3, 'c') s ON t.ID = s.ID "
+     "WHEN MATCHED THEN UPDATE SET SEEN = SEEN + 1, PATH = s.NEWPATH WHEN NOT MATCHED THEN INSERT (ID, PATH, SEEN) VALUES (s.ID, s.NEWPATH, 0)",
+     [(1, "z", 1), (2, "b", 5), (3, "c", 0)], [(1, 1)]),
+    ("set-unqualified-target-column-no-alias",
+     "MERGE INTO PATHS USING (SELECT 2 AS ID, 'y' AS NEWPATH) s ON PATHS.ID = s.ID WHEN MATCHED THEN UPDATE SET SEEN = SEEN * 2 + 1",
+     [(1, "a", 0), (2, "b", 11)], [(1,)]),
+    ("condition-on-unqualified-target-column",
+     "MERGE INTO PATHS t USING (SELECT 1 AS ID, 'p' AS NEWPATH UNION ALL SELECT 2, 'q') s ON t.ID = s.ID "
+     "WHEN MATCHED AND SEEN > 3 THEN UPDATE SET PATH = s.NEWPATH || PATH, SEEN = 0",
+     [(1, "a", 0), (2, "qb", 0)], [(1,)]),
+    ("set-target-qualified-column-in-expression",
+     "MERGE INTO PATHS t USING (SELECT 1 AS ID, 4 AS N) s ON t.ID = s.ID WHEN MATCHED THEN UPDATE SET SEEN = t.SEEN + s.N * 2 + SEEN",
+     [(1, "a", 8), (2, "b", 5)], [(1,)]),
+]
+
+
 def gen_cases(tier: str, seed: int):
     r = random.Random(f"{seed}:C12")
+    for i in range(len(TARGET_ONLY)):
+        yield {"kind": "target_only", "which": i}
     n = 2500 if tier == "quick" else 30000
     for _ in range(n):
         clauses = []
@@ -298,7 +319,29 @@ def _vals(rows: list) -> str:
     return ", ".join("(" + ", ".join("NULL" if v is None else _lit(v) for v in row) + ")" for row in rows)
 
 
+def _target_only(case: dict, env: core.Env) -> None:
+    """Columns that only the target has, named without their table in SET expressions and WHEN conditions."""
+    name, sql, want_rows, want_status = TARGET_ONLY[case["which"]]
+    conn, raw = _state["conn"], _state["raw"]
+    cur = conn.cursor()
+    cur.execute("CREATE OR REPLACE TABLE PATHS (ID INT, PATH VARCHAR, SEEN INT)")
+    cur.execute("INSERT INTO PATHS VALUES (1, 'a', 0), (2, 'b', 5)")
+    env.count("cmp_target_only_columns")
+    out = core.run_stmt(cur, sql)
+    got = sorted(raw.execute("select ID, PATH, SEEN from DB1.S1.PATHS").fetchall())
+    if not out["ok"]:
+        env.witness(f"C12/rejected/target-only-column/{name}/{out['exc']['cls']}", f"{sql}: {out['exc']}; table now {got}"[:900])
+    elif got != want_rows:
+        env.witness(f"C12/target-contents/target-only-column/{name}", f"{sql}: {got} expected {want_rows}")
+    elif [tuple(int(x) for x in row) for row in out["rows"]] != want_status:
+        env.witness(f"C12/counts/target-only-column/{name}", f"{sql}: status {out['rows']} expected {want_status}")
+    cur.execute("DROP TABLE PATHS")
+    env.nontrivial(("target_only", name))
+
+
 def run_case(case: dict, env: core.Env) -> None:
+    if case.get("kind") == "target_only":
+        return _target_only(case, env)
     conn, raw = _state["conn"], _state["raw"]
     try:
         conn.rollback()
